@@ -268,6 +268,26 @@ REGISTRY = {
                                           "NOT APPLICABLE sub-claims: KPM solver and its tolerance claim (iterative float code), MUMPS"],
         timeout_s={"quick": 400, "thorough": 1500},
     ),
+    "C09": dict(
+        jobs=lambda tier, seed: __import__("vf.props.dsl", fromlist=["x"]).configs(tier, seed),
+        job_of_config=lambda cfg: ("vf.props.dsl", "c09_shipped" if cfg.get("shipped") else ("c09_docstring" if cfg.get("docstring") else "c09_generated")),
+        level="translation_validation",
+        post=lambda results, tier: {
+            "programs": sum((r.get("sample") or {}).get("programs", 1) if r.get("_kind") == "done" else 0 for r in results),
+            "programs_discarded_not_well_founded": sum((r.get("sample") or {}).get("discarded_not_well_founded", 0) for r in results if r.get("_kind") == "done"),
+            "disagreements_checked": sum(len(r.get("cex", [])) for r in results if r.get("_kind") == "done"),
+        },
+        technique="translation validation: for each program (the two shipped algorithms under all two_block_optimized / commuting_blocks / mask-wrapper combinations, grammar-generated programs, the docstring example) "
+        "the real series_computation compiles and runs it on SYMBOLIC input series and z3 decides, for every element of every series in the returned dict (incl. deleted intermediates and products), "
+        "library value != value of an independent direct interpreter of the documented semantics (vf/dslref.py); three request schedules; ill-founded elements must raise RuntimeError",
+        bounds={
+            "quick": "shipped: layouts {1|1,1|2,2|1,1|1|1}, orders <=3, all flag combinations, 3 schedules, 2 parameters on 1|1; 80 generated programs (3 series, <=2 products of 2-3 factors, all documented statement kinds) on 1|1 and 2|1 to order 2; docstring example",
+            "thorough": "adds 2|2 and 1|1|2, 800 generated programs",
+        },
+        assumptions=COMMON_ASSUMPTIONS[:1] + COMMON_ASSUMPTIONS[2:] + ["series whose zeroth order is the identity sentinel (`start = 1`) are only used as outputs in generated programs (the sentinel supports no arithmetic, as documented)",
+                                                                    "linear-operator mode of the compiled code is exercised by C06, not here"],
+        timeout_s={"quick": 400, "thorough": 1800},
+    ),
 }
 
 # Properties not (yet) claimed, each with the reason.  Entries disappear as checks are registered.
